@@ -272,8 +272,10 @@ def make_stub(callee, caller_label):
         finally:
             c.in_spec -= 1
         for name, f in post.items():
+            if name.startswith("derived."):
+                continue  # consequences of the other clauses: proved for the callee, not needed by callers
             S.assume(f)
-        w = callee.expect_warning(a)
+        c.ghost.setdefault(callee.target, []).append((a, r))
         return r
 
     stub.__name__ = "stub_" + real.__name__
